@@ -767,6 +767,115 @@ def run_r9(ctx, rule):
         rule.bad("compare/sites", "no literal comparison found in transfer (the cycle test was confirmed by hand)", kind="anchor-missing")
 
 
+# ---- R10: every root literal is transferred on every successful initialisation -------------------------------------
+ROOTS = {
+    "next_state": "latch next-state literals",
+    "outputs": "outputs",
+    "bad_state_properties": "bad-state properties",
+    "invariant_constraints": "invariant constraints",
+    "fairness_constraints": "fairness constraints",
+    "justice_properties": "justice properties",
+}
+
+
+def closure_fields(facts, f, e, seen=None, depth=0):
+    """field names read inside the closures an expression's value is derived through (`.iter().map(|l| l.next_state)`)"""
+    sy = sym(f)
+    seen = seen if seen is not None else set()
+    out = set()
+    if depth > 8 or not isinstance(e, tuple):
+        return out
+    for x in subexprs(e):
+        if x[0] == "agg" and isinstance(x[1], str) and "{closure" in x[1]:
+            for i, g in facts.fns.items():
+                if i == x[1] or norm(i) == norm(x[1]):
+                    sg = sym(g)
+                    for b in g.blocks:
+                        if b["cleanup"]:
+                            continue
+                        for s_ in b["stmts"]:
+                            if s_["k"] == "assign":
+                                for y in subexprs(sg.rvalue(s_["rv"])):
+                                    if y[0] == "f" and not y[2].isdigit():
+                                        out.add(y[2])
+        if x[0] == "l" and x[1] not in seen:
+            seen.add(x[1])
+            for d in sy.defs.get(x[1], []):
+                if d[0] == "stmt":
+                    out |= closure_fields(facts, f, sy.rvalue(d[3]), seen, depth + 1)
+                else:
+                    for a in d[2]["args"]:
+                        out |= closure_fields(facts, f, sy.operand(a), seen, depth + 1)
+    return out
+
+
+def run_r10(ctx, rule):
+    """`renumber_aig` reads the new name of every root literal with `lit_map.get(lit).unwrap()`; that the literal is
+    defined at all (and the `LitNotDefined` / cycle errors for it) is established by `initialize` transferring it.  So
+    on *every* path of `initialize` that returns Ok, every root section must have been walked completely with a
+    `transfer` per literal: the loop over the section lies on every way to Ok (dominance), every iteration reaches the
+    transfer, and the loop is left towards Ok only when its iterator is exhausted."""
+    facts = ctx.facts
+    f = afn(facts, "Renumber::initialize")
+    sy = sym(f)
+    c = cfg(f)
+    oks = [bi for bi, b in enumerate(f.blocks) if not b["cleanup"] and bi in c.reach and any(s["k"] == "assign" and s["lhs"]["l"] == 0 and not s["lhs"]["p"] and s["rv"]["k"] == "agg" and s["rv"].get("adt") == "core::result::Result" and s["rv"].get("variant") == "Ok" for s in b["stmts"])]
+    if not oks:
+        rule.bad("initialize/no-ok", "anchor missing: initialize has no `Ok(..)` return", f.loc(), kind="anchor-missing")
+        return
+    loops = c.loops()
+    can_ok = set()
+    for o in oks:
+        can_ok |= set(x for x in c.reach if o in c.reachable_from(x))
+
+    def exhaustion_test(bi):
+        t = f.blocks[bi]["term"]
+        if t["k"] != "switch":
+            return False
+        e = sy.operand(t["discr"]) if "discr" in t else None
+        if e is None:
+            return False
+        return mentions(e, lambda x: x[0] == "call" and norm(x[2]).rsplit("::", 1)[-1] == "next")
+
+    transfers = [(bb, t) for bb, t in f.calls() if norm(util.cname(t)) == AIG + "Renumber::transfer"]
+    for root, what in sorted(ROOTS.items()):
+        why = "no transfer of a literal read from `%s`" % root
+        good = False
+        where = f.loc()
+        for bb, t in transfers:
+            src = source_fields(f, sy.operand(t["args"][1])) | closure_fields(facts, f, sy.operand(t["args"][1]))
+            if root not in src:
+                continue
+            where = f.loc(bb)
+            chain = sorted([(h, body) for h, body in loops.items() if bb in body], key=lambda hb: -len(hb[1]))  # outermost first
+            if not chain:
+                why = "the transfer of `%s` is not inside a loop over the section" % root
+                continue
+            h1, body1 = chain[0]
+            bad_ok = [o for o in oks if not c.dominates(h1, o)]
+            if bad_ok:
+                why = "initialize can return Ok without walking `%s` (the Ok at %s is not behind the loop)" % (root, f.loc(bad_ok[0]))
+                continue
+            ok_chain = True
+            # each inner loop runs on every iteration of the loop around it; the transfer on every iteration of the innermost
+            seq = chain + [(bb, None)]
+            for (h, body), (hn, _b) in zip(chain, seq[1:]):
+                latches = [a for a in body if h in c.succ[a]]
+                if not all(c.dominates(hn, a) for a in latches):
+                    ok_chain = False
+                    why = "an iteration of the loop over `%s` can go on without reaching the transfer" % root
+                # left towards Ok only by exhaustion
+                for a in body:
+                    for b2 in c.succ[a]:
+                        if b2 not in body and b2 in can_ok and not f.blocks[b2]["cleanup"] and not exhaustion_test(a):
+                            ok_chain = False
+                            why = "the loop over `%s` can be left towards Ok before its iterator is exhausted (%s)" % (root, f.loc(a))
+            if ok_chain:
+                good = True
+                break
+        rule.check(good, "initialize/root-transferred/%s" % root, "every successful initialisation has transferred all %s%s" % (what, "" if good else " - " + why), where)
+
+
 def run(ctx):
     r1 = ctx.rule("C12-R1", "the renumbering code is not recursive (explicit stack)", floor=2)
     run_r1(ctx, r1)
@@ -784,6 +893,8 @@ def run(ctx):
     run_r8(ctx, r8)
     r7 = ctx.rule("C12-R7", "source-circuit literals and renumbered literals are never compared, and each is used where its numbering is meant", floor=4)
     run_r7(ctx, r7)
+    r10 = ctx.rule("C12-R10", "every root literal (latch next-state, output, bad-state, constraint, justice, fairness) is transferred on every path on which initialize returns Ok: an undefined root yields LitNotDefined, never a panic or a wrong circuit later", floor=6)
+    run_r10(ctx, r10)
     r6 = ctx.rule("C12-R6", "every constant fold is an identity of AND (each decision path checked over the six representative codes)", floor=5)
     run_r6(ctx, r6)
     ctx.assume("Boolean equivalence of the renumbered circuit as a whole, hash-consing and completeness of the cycle detection are value-level and NOT decided (the const-fold case analysis is decided by C12-R6)")
